@@ -5,8 +5,9 @@
    ANCHORS: streamflow.workflow.step.LoopCombinatorStep.run, streamflow.workflow.combinator.DotProductCombinator._product,
             streamflow.workflow.combinator.DotProductCombinator._add_to_port, streamflow.workflow.combinator.LoopCombinator._product
    Ports are numbered 0..k-1.  _token_values[tag][port] holds at most one token (all tokens filed under a tag carry
-   that tag and _add_to_port drops a token whose tag is already there), so the join state is, per tag, the list of
-   ports holding a token, in the order they got it. *)
+   that tag and _add_to_port drops a token whose tag is already there), so the join state is the list of the
+   (port, tag) pairs waiting, in arrival order; a combination is emitted when every port has the tag, which empties
+   all k deques of that tag. *)
 From Coq Require Import List Bool Arith NArith Lia.
 From SF Require Import Tags.Model Loop.Net.
 Import ListNotations.
@@ -14,7 +15,7 @@ Import ListNotations.
 Record ck := {
   kchk : list (nat * tag);             (* (port, tag) in that port's checklist *)
   kterm : list nat;                    (* terminated *)
-  kpend : list (tag * list nat);       (* join state: tag -> ports holding a token *)
+  kpend : list (nat * tag);            (* join state: (port, tag) waiting for the other ports *)
   kimap : list (tag * N);
   kout : list (nat * atok);            (* (output port, token) in the order they were put *)
   kdone : bool                         (* run() returned *)
@@ -26,13 +27,14 @@ Proof. decide equality; [apply tag_dec|apply Nat.eq_dec]. Defined.
 Definition pmem (x : nat * tag) (l : list (nat * tag)) : bool := if in_dec pt_dec x l then true else false.
 Definition nmem (i : nat) (l : list nat) : bool := existsb (Nat.eqb i) l.
 
-Fixpoint pget (t : tag) (m : list (tag * list nat)) : list nat :=
-  match m with [] => [] | (t', v) :: m' => if tag_dec t t' then v else pget t m' end.
-Fixpoint pset (t : tag) (v : list nat) (m : list (tag * list nat)) : list (tag * list nat) :=
-  match m with
-  | [] => [(t, v)]
-  | (t', v') :: m' => if tag_dec t t' then (t, v) :: m' else (t', v') :: pset t v m'
-  end.
+(* join state after port i delivered tag t (a second token with the same tag on the same port is dropped) *)
+Definition pend_add (i : nat) (t : tag) (pend : list (nat * tag)) : list (nat * tag) :=
+  if pmem (i, t) pend then pend else pend ++ [(i, t)].
+Definition joined (k : nat) (t : tag) (pend : list (nat * tag)) : bool :=
+  forallb (fun j => pmem (j, t) pend) (seq 0 k).
+Definition has_tagb (t : tag) (x : nat * tag) : bool := if tag_dec (snd x) t then true else false.
+Definition rm_tag (t : tag) (pend : list (nat * tag)) : list (nat * tag) :=
+  filter (fun x => negb (has_tagb t x)) pend.
 
 (* the port is read again unless it is in [terminated] and its checklist is empty *)
 Definition armed (s : ck) (i : nat) : bool :=
@@ -46,13 +48,12 @@ Definition ck_token (k : nat) (s : ck) (i : nat) (a : atok) : ck :=
   match a with
   | AT t =>
       let chk' := chk_add i t (kchk s) in
-      let ports := pget t (kpend s) in
-      let ports' := if nmem i ports then ports else ports ++ [i] in
-      if Nat.eqb (length ports') k
+      let pend1 := pend_add i t (kpend s) in
+      if joined k t pend1
       then let r := retag_l (kimap s) t in
-           {| kchk := chk'; kterm := kterm s; kpend := pset t [] (kpend s); kimap := fst r;
-              kout := kout s ++ map (fun j => (j, AT (snd r))) ports'; kdone := false |}
-      else {| kchk := chk'; kterm := kterm s; kpend := pset t ports' (kpend s); kimap := kimap s;
+           {| kchk := chk'; kterm := kterm s; kpend := rm_tag t pend1; kimap := fst r;
+              kout := kout s ++ map (fun x => (fst x, AT (snd r))) (filter (has_tagb t) pend1); kdone := false |}
+      else {| kchk := chk'; kterm := kterm s; kpend := pend1; kimap := kimap s;
               kout := kout s; kdone := false |}
   | AI t => {| kchk := remove pt_dec (i, t) (kchk s); kterm := kterm s; kpend := kpend s; kimap := kimap s;
                kout := kout s; kdone := false |}
@@ -74,7 +75,7 @@ Definition done_ok (k : nat) (s : ck) : Prop :=
   kdone s = true -> forall i, i < k -> In i (kterm s) /\ (forall t, ~ In (i, t) (kchk s)).
 
 Lemma ck_token_not_done k s i a : kdone (ck_token k s i a) = false.
-Proof. unfold ck_token. destruct a; try reflexivity. destruct (Nat.eqb _ k); reflexivity. Qed.
+Proof. unfold ck_token. destruct a; try reflexivity. destruct (joined k _ _); reflexivity. Qed.
 
 Lemma done_ok_step k s x : done_ok k s -> done_ok k (ck_step k s x).
 Proof.
@@ -112,7 +113,7 @@ Proof.
   apply in_or_app. left. exact H.
 Qed.
 Lemma kchk_token_at k s i t : kchk (ck_token k s i (AT t)) = chk_add i t (kchk s).
-Proof. unfold ck_token. destruct (Nat.eqb _ k); reflexivity. Qed.
+Proof. unfold ck_token. destruct (joined k _ _); reflexivity. Qed.
 
 (* a token read on port i whose prefix is not on that port's checklist puts its tag there ... *)
 Lemma ck_adds k s i t :
